@@ -140,6 +140,10 @@ section .text
 %define %%IN		%6	; input data
 %define %%IDX		%7	; index into input and output data buffers
 
+	; nothing to encrypt: the sub-loop below processes at least one block
+	test	LEN, LEN
+	jz	done
+
 	%%MOVDQ	XDATA(%%P_FIRST), [%%IN + %%IDX + 0*16]
 	%%MOVDQ	reg(%%IV_IDX), [%%IV]
 	%%PXOR	XDATA(%%P_FIRST), reg(%%IV_IDX)
